@@ -1,8 +1,12 @@
 (* C10/C11 driver: the extracted allocator model on the line protocol of harness/h_fsm.c.
-   argv[1] = code variant "LSYZ": L=1 model of the code after fixes/fsm-lfbk.diff, S=1 after fixes/fsm-strict-dealloc.diff,
-   Y=1 after fixes/fsm-syncbmap.diff, Z=1 after fixes/fsm-dealloc-short.diff. *)
-let arg = (if Array.length Sys.argv > 1 then Sys.argv.(1) else "") ^ "0000"
-let vr mm = { fx_lfbk = (arg.[0] = '1'); fx_strict = (arg.[1] = '1'); fx_sync = (arg.[2] = '1'); fx_short = (arg.[3] = '1'); mmap_all = mm }
+   argv[1] = code variant "LSYZRHK": L=1 model of the code after fixes/fsm-lfbk.diff, S=1 after fixes/fsm-strict-dealloc.diff,
+   Y=1 after fixes/fsm-syncbmap.diff, Z=1 after fixes/fsm-dealloc-short.diff, R=1 after fixes/fsm-realloc-guard.diff,
+   H=1 after fixes/fsm-alloc-overflow.diff, K=1 after fixes/fsm-resize-leak.diff.
+   `maxoff n` sets opts->exfile.maxoff for the opens that follow (0 = none), as in harness/h_fsm.c. *)
+let arg = (if Array.length Sys.argv > 1 then Sys.argv.(1) else "") ^ "0000000"
+let vr mm = { fx_lfbk = (arg.[0] = '1'); fx_strict = (arg.[1] = '1'); fx_sync = (arg.[2] = '1'); fx_short = (arg.[3] = '1');
+              fx_realloc = (arg.[4] = '1'); fx_hint = (arg.[5] = '1'); fx_leak = (arg.[6] = '1'); mmap_all = mm }
+let omaxoff = ref Z0
 let cur : fsm option ref = ref None      (* open file *)
 let left : fsm option ref = ref None     (* what close left on disk *)
 let notrim = ref false
@@ -45,8 +49,9 @@ let handle toks =
   | [], _ -> ""
   | ["open"; bp; hl; bl; st; nt; mm], _ ->
     notrim := (nt = "1"); left := None;
-    let (rc, s) = open_new (vr (mm = "1")) (zi bp) (zi hl) (zi bl) (st = "1") in
+    let (rc, s) = open_new_max (vr (mm = "1")) (zi bp) (zi hl) (zi bl) !omaxoff (st = "1") in
     if rc = Z0 then (cur := Some s; zs rc ^ state s) else (cur := None; zs rc ^ " | closed")
+  | ["maxoff"; n], _ -> omaxoff := zi n; "ok"
   | ["reopen"; st; nt; mm], None ->
     (match !left with
      | None -> "?nothing-to-reopen"
